@@ -6,7 +6,6 @@ CONSTANTS
   SzxReducesModFrame = TRUE
   AyLostOn48K = TRUE
   MaxSteps = 40
-  Programs <- MCPrograms
+  Programs <- NegPrograms
 INVARIANT Transparent
-PROPERTY LockStable
 CHECK_DEADLOCK FALSE
